@@ -125,6 +125,9 @@ func (e *Engine) schemaFor(fn *ssa.Function, prop string) *Contract {
 		if rv.kind == "other" || !hasIntParam(fn) {
 			return nil
 		}
+		if _, ex := e.Tables.SafeExclude[key]; ex {
+			return nil
+		}
 		pre()
 		con.Tags = []string{"C08"}
 		con.SafetyTags = []string{"C08"}
